@@ -91,6 +91,10 @@ func (w *World) verifyFunction(fn *ssa.Function, fc *FuncContract) (res *FuncRes
 		}
 	}
 	if fc != nil {
+		for _, u := range fc.Uses {
+			pre.where = u.Where()
+			enc.assume(fr.safeTr(pre, u), "axiom instance "+u.Text)
+		}
 		for _, sp := range fc.Splits {
 			pre.where = sp.Where()
 			enc.splits = append(enc.splits, fr.safeTr(pre, sp))
